@@ -287,7 +287,8 @@ def rule_unordered(repo):
     r.evaluations = an.evals
     # --- seed / address dependent scalar sources
     seed_hits = []
-    for rel in an.scope:
+    text_producers = [f for f in support_files(repo) if f.startswith('pymtl3/passes/')]
+    for rel in list(an.scope) + [f for f in text_producers if f not in an.scope]:
         m = repo.mod(rel) if rel != PROBE_REL else an.mods[rel]
         for n in ast.walk(m.tree):
             if isinstance(n, ast.Name) and n.id in SEED_FUNCS and isinstance(n.ctx, ast.Load) and n.id not in m.functions \
@@ -854,8 +855,26 @@ def _hash_facts(r, m, func, qual, suffix_sources, keep_names, what):
             isinstance(y, ast.Attribute) and y.attr == 'hexdigest'
             for nm in _names_of(x.value) for v in _local_assignments(func).get(nm, []) if v is not None for y in ast.walk(v))
         keeps = any(k in src for k in keep_names) or any(k in txt for k in keep_names)
-        if uses_hex and keeps:
-            r.ok(m, qual, f"return {txt}")
+        # symbolic shape of the name: readable parts + digest(input).  A readable part that is cut (slice / split / %)
+        # loses information; that is only harmless if the digest input is the complete, uncut full name
+        exprs = [x.value] + [v for nm in _names_of(x.value) if nm != hname
+                             for v in _local_assignments(func).get(nm, []) if v is not None]
+        cut = []
+        for ex in exprs:
+            for y in ast.walk(ex):
+                if isinstance(y, ast.Subscript) and isinstance(y.slice, ast.Slice) and \
+                        not any(isinstance(z, ast.Attribute) and z.attr in ('hexdigest', 'digest') for z in ast.walk(y.value)) \
+                        and hname not in sources(y.value, func, stop={hname}):
+                    cut.append(y)
+        digest_complete = len(ups) == 1 and len(ups[0].args) == 1 and not any(
+            isinstance(z, ast.Subscript) for z in ast.walk(ups[0].args[0]))
+        if cut and not digest_complete:
+            r.bad(m, qual, f"return {txt}"[:120],
+                  f"{what}: the readable part `{norm(cut[0])}` is truncated but the digest input "
+                  f"`{norm(ups[0].args[0]) if ups and ups[0].args else '?'}` does not contain what is cut off: two long names "
+                  f"that agree in the kept prefix and in the hashed suffix (different classes, same parameters) alias", x.lineno)
+        elif uses_hex and keeps:
+            r.ok(m, qual, f"return {txt}"[:120])
         else:
             r.bad(m, qual, f"return {txt}", f"{what}: the hashed name must consist of the class name and the hex digest "
                   f"(class name kept: {keeps}, hexdigest used: {uses_hex})", x.lineno)
@@ -1773,7 +1792,280 @@ def rule_state(repo):
     return r
 
 
-RULES = [rule_unordered, rule_dedup, rule_name, rule_once, rule_instname, rule_defname, rule_defaults, rule_state]
+# ---------------------------------------------------------------------------------------------
+def _self_paths(repo, m, cls, meth, depth=3, expand=False, _seen=None):
+    """access paths of `self` read by a method: tuples of attribute names (`s.cls.__name__` -> ('cls', '__name__')); a call
+    of a method of the same class is the atom ('name()',) or, with expand=True, the paths of that method"""
+    me = meth.args.args[0].arg
+    out = set()
+    _seen = _seen or set()
+    for n in ast.walk(meth):
+        if not isinstance(n, ast.Attribute) or isinstance(parent(n), ast.Attribute):
+            continue
+        chain, cur = [], n
+        while isinstance(cur, ast.Attribute):
+            chain.append(cur.attr)
+            cur = cur.value
+        if not (isinstance(cur, ast.Name) and cur.id == me):
+            continue
+        chain.reverse()
+        is_call = isinstance(parent(n), ast.Call) and parent(n).func is n
+        if is_call and len(chain) == 1:
+            hit = None
+            try:
+                hit = repo.lookup_method(m, cls, chain[0])
+            except AnalysisError:
+                hit = None
+            if hit is not None and expand and depth > 0 and (hit[1].name, chain[0]) not in _seen:
+                out |= _self_paths(repo, hit[0], cls, hit[2], depth - 1, True, _seen | {(hit[1].name, chain[0])})
+            else:
+                out.add((chain[0] + '()',))
+            continue
+        if is_call:
+            chain = chain[:-1]             # s.properties.items() reads s.properties
+        if chain and chain[0] not in ('__class__',):
+            out.add(tuple(chain))
+    return out
+
+
+def rule_eqhash(repo):
+    r = RuleResult('R-C13-eqhash', "classes used as keys of the de-duplication tables: __hash__ is a function of what __eq__ "
+                                   "compares (equal type objects fall into one table slot, so a typedef is emitted once)")
+    files = [RDTYPE, RTYPE, RTLIR + 'structural/StructuralRTLIRSignalExpr.py']
+    # key classes: the RTLIR data types (keys of the typedef tables) and whatever an isinstance() guard of a
+    # first-writer-wins table names
+    key_classes = set(repo.mod(RDTYPE).classes)
+    for rel in [f for f in scope_files(repo) if f not in DEBUG_ONLY]:
+        m = repo.mod(rel)
+        for func in [n for n in ast.walk(m.tree) if isinstance(n, ast.FunctionDef)]:
+            for ifn, K, D, V, hit in _dedup_sites(func):
+                if not isinstance(K, ast.Name):
+                    continue
+                for g in guards_of(ifn):
+                    for c in ast.walk(g.test) if g.test is not None else []:
+                        if isinstance(c, ast.Call) and norm(c.func) == 'isinstance' and len(c.args) == 2 and norm(c.args[0]) == K.id:
+                            for t in ast.walk(c.args[1]):
+                                if isinstance(t, ast.Attribute):
+                                    key_classes.add(t.attr)
+                                elif isinstance(t, ast.Name):
+                                    key_classes.add(t.id)
+    n_checked = 0
+    for rel in files:
+        m = repo.mod(rel)
+        for cname, cls in sorted(m.classes.items()):
+            own = {x.name: x for x in cls.body if isinstance(x, ast.FunctionDef)}
+            if '__hash__' not in own and '__eq__' not in own:
+                continue
+            try:
+                h = repo.lookup_method(m, cls, '__hash__')
+                e = repo.lookup_method(m, cls, '__eq__')
+            except AnalysisError:
+                h = e = None
+            if h is None or e is None:
+                continue
+            n_checked += 1
+            hp = _self_paths(repo, h[0], cls, h[2])
+            ep = _self_paths(repo, e[0], cls, e[2])
+
+            def unmatched(hs, es):
+                return sorted(x for x in hs if not any(x[:len(y)] == y for y in es))
+            bad = unmatched(hp, ep)
+            if bad:
+                hp2 = _self_paths(repo, h[0], cls, h[2], expand=True)
+                ep2 = _self_paths(repo, e[0], cls, e[2], expand=True)
+                bad = unmatched(hp2, ep2 | ep)
+                r.evaluations += 1
+            cons = f"{cname}: __hash__ over {sorted('.'.join(x) for x in hp)} vs __eq__ over {sorted('.'.join(x) for x in ep)}"
+            if not bad:
+                r.ok(m, cname, cons[:200], nontrivial=bool(hp))
+            elif cname in key_classes:
+                r.bad(m, f"{cname}.__hash__", f"{cname}: __hash__ reads {['.'.join(x) for x in bad]} which __eq__ does not compare",
+                      f"{cname} objects are keys of the translators' first-writer-wins tables; __hash__ depends on "
+                      f"{['self.' + '.'.join(x) for x in bad]} while __eq__ compares {sorted('self.' + '.'.join(x) for x in ep)}: "
+                      f"two EQUAL types (e.g. same struct name and fields, distinct Python classes) hash differently, occupy two "
+                      f"slots, and the same definition (typedef) is emitted twice", h[2].lineno)
+            else:
+                r.ok(m, cname, cons[:200], nontrivial=False,
+                     note="hash/eq mismatch on a class that is not a key of any de-duplication table")
+                r.observations.append(f"{rel}: {cname}.__hash__ reads {['.'.join(x) for x in bad]} which __eq__ does not compare "
+                                      f"(not a de-duplication key in the translators today)")
+    if 'Struct' not in key_classes or 'Vector' not in key_classes:
+        raise AnalysisError("R-C13-eqhash: the RTLIR data type classes were not found")
+    r.require_floor(10)
+    return r
+
+
+# ---------------------------------------------------------------------------------------------
+DECL_ENTRIES = ('rtlir_tr_port_decl', 'rtlir_tr_wire_decl', 'rtlir_tr_const_decl')
+
+
+class _Reserved:
+    """must-analysis: is the identifier parameter of a declaration generator passed through the reserved-word check on
+    every path on which it is used un-suffixed?  (a name with an appended `__<idx>` / `__<field>` cannot be a keyword)"""
+    def __init__(self, repo, files, own_files):
+        self.defs = {}
+        self.own = []
+        for rel in files:
+            m = repo.mod(rel)
+            for c in ast.walk(m.tree):
+                if isinstance(c, ast.ClassDef):
+                    for f in c.body:
+                        if isinstance(f, ast.FunctionDef):
+                            self.defs.setdefault(f.name, []).append((m, c, f))
+                            if rel in own_files:
+                                self.own.append((m, c, f))
+        self.memo = {}
+        self.why = {}
+
+    def covered(self, f, p):
+        key = (id(f), p)
+        if key in self.memo:
+            return self.memo[key]
+        self.memo[key] = False           # least fixpoint
+        ok, state = self.walk(f.body, f, p, (False, False))
+        res = ok and (state is None or state[0] or not state[1])
+        self.memo[key] = res
+        return res
+
+    def event(self, node, f, p):
+        me = f.args.args[0].arg if f.args.args else None
+        for c in ast.walk(node):
+            if not isinstance(c, ast.Call) or not isinstance(c.func, ast.Attribute):
+                continue
+            if c.func.attr in ('check_decl',) and c.args and isinstance(c.args[0], ast.Name) and c.args[0].id == p:
+                return True
+            recv = c.func.value
+            is_super = isinstance(recv, ast.Call) and norm(recv.func) == 'super'
+            if not (is_super or (isinstance(recv, ast.Name) and recv.id == me)):
+                continue
+            cands = self.defs.get(c.func.attr, [])
+            if is_super:
+                cands = [x for x in cands if x[2] is not f and x[1] is not enclosing(f, (ast.ClassDef,))]
+            if not cands:
+                continue
+            for i, a in enumerate(c.args):
+                if isinstance(a, ast.Name) and a.id == p:
+                    good = True
+                    for m2, c2, g in cands:
+                        params = [x.arg for x in g.args.args][1:]
+                        if i >= len(params) or not self.covered(g, params[i]):
+                            good = False
+                            self.why[(id(f), p)] = f"{c.func.attr}"
+                    if good:
+                        return True
+        return False
+
+    @staticmethod
+    def used(node, p):
+        for n in ast.walk(node):
+            if isinstance(n, ast.Name) and n.id == p and isinstance(n.ctx, ast.Load):
+                par = parent(n)
+                if isinstance(par, (ast.Call, ast.keyword, ast.Return, ast.Dict, ast.List, ast.Tuple, ast.Assign, ast.Starred)):
+                    return True
+        return False
+
+    def walk(self, stmts, f, p, state):
+        """-> (no path returned un-checked while using p, state at the end or None when every path left)"""
+        cov, used = state
+        for st in stmts:
+            if isinstance(st, ast.If):
+                used = used or self.used(st.test, p)
+                ok1, s1 = self.walk(st.body, f, p, (cov, used))
+                ok2, s2 = self.walk(st.orelse, f, p, (cov, used))
+                if not (ok1 and ok2):
+                    return False, None
+                if s1 is None and s2 is None:
+                    return True, None
+                if s1 is None:
+                    cov, used = s2
+                elif s2 is None:
+                    cov, used = s1
+                else:
+                    cov, used = s1[0] and s2[0], s1[1] or s2[1]
+            elif isinstance(st, ast.Return):
+                if st.value is not None:
+                    cov = cov or self.event(st.value, f, p)
+                    used = used or self.used(st, p)
+                return (cov or not used), None
+            elif isinstance(st, ast.Raise):
+                return True, None
+            elif isinstance(st, (ast.For, ast.While)):
+                ok, s_ = self.walk(st.body, f, p, (cov, used))
+                if not ok:
+                    return False, None
+                used = used or (s_ is not None and s_[1]) or self.used(st.iter if isinstance(st, ast.For) else st.test, p)
+            elif isinstance(st, ast.Try):
+                ok, s_ = self.walk(st.body, f, p, (cov, used))
+                if not ok:
+                    return False, None
+                for h in st.handlers:
+                    okh, _ = self.walk(h.body, f, p, (cov, used))
+                    if not okh:
+                        return False, None
+                if s_ is not None:
+                    cov, used = s_
+            elif isinstance(st, ast.With):
+                ok, s_ = self.walk(st.body, f, p, (cov, used))
+                if not ok:
+                    return False, None
+                if s_ is None:
+                    return True, None
+                cov, used = s_
+            elif isinstance(st, (ast.FunctionDef, ast.ClassDef)):
+                continue
+            else:
+                if not cov and self.event(st, f, p):
+                    cov = True
+                used = used or self.used(st, p)
+        return True, (cov, used)
+
+
+def rule_reserved(repo):
+    r = RuleResult('R-C13-reserved', "every generator of a port / wire / constant declaration passes the user-chosen identifier "
+                                     "through the reserved-word check on every path (SystemVerilog and Yosys back-ends)")
+    scope = scope_files(repo)
+    vs = [f for f in scope if f.startswith(VTRANS + 'structural/')]
+    ys = [f for f in scope if f.startswith(YTRANS + 'structural/')]
+    for backend, files, own in (('verilog', vs, vs), ('yosys', ys + vs, ys)):
+        ra = _Reserved(repo, files, own)
+        if 'check_decl' not in ra.defs:
+            raise AnalysisError("anchor vanished: check_decl")
+        for m2, c2, cd in ra.defs['check_decl']:
+            raises = [x for x in ast.walk(cd) if isinstance(x, ast.Raise)]
+            tests = [g for x in raises for g in guards_of(x) if g.kind == 'if']
+            p0 = cd.args.args[1].arg
+            if raises and tests and all('reserved' in norm(g.test) and p0 in _names_of_raw(g.test) and g.polarity for g in tests):
+                r.ok(m2, qualname(cd), f"{backend}: check_decl raises for reserved words", nontrivial=False)
+            else:
+                r.bad(m2, qualname(cd), f"{backend}: check_decl", "check_decl no longer raises when the identifier is a reserved "
+                      "word", cd.lineno)
+        n = 0
+        for m, c, f in ra.own:
+            if f.name not in DECL_ENTRIES:
+                continue
+            body = [s_ for s_ in f.body if not (isinstance(s_, ast.Expr) and isinstance(s_.value, ast.Constant))]
+            if len(body) == 1 and (isinstance(body[0], ast.Raise) or
+                                   (isinstance(body[0], ast.Return) and isinstance(body[0].value, ast.Constant))):
+                continue          # emits nothing
+            n += 1
+            p = f.args.args[1].arg
+            cons = f"{backend}: {f.name} checks its identifier"
+            if ra.covered(f, p):
+                r.ok(m, qualname(f), cons)
+            else:
+                via = ra.why.get((id(f), p))
+                r.bad(m, qualname(f), cons,
+                      f"the identifier `{p}` reaches the emitted declaration on a path without the reserved-word check"
+                      f"{' (through ' + via + ', which no longer checks on every path)' if via else ''}: a signal named like a "
+                      f"SystemVerilog keyword (e.g. a wire called `reg`) is declared as `logic [7:0] reg;`", f.lineno)
+        if n == 0:
+            raise AnalysisError(f"anchor vanished: no declaration generators in the {backend} back-end")
+    r.require_floor(6)
+    return r
+
+
+RULES = [rule_unordered, rule_dedup, rule_name, rule_once, rule_instname, rule_defname, rule_defaults, rule_state,
+         rule_eqhash, rule_reserved]
 
 
 # ---------------------------------------------------------------------------------------------
@@ -1900,6 +2192,29 @@ MUTANTS = [
           raise VerilogPlaceholderError(m,""", 'R-C13-once'),
     _m('wrapper-name-guard-removed', VSL1, "        if module_name == ph_cfg.top_module:\n          raise VerilogPlaceholderError(m,",
        "        if False:\n          raise VerilogPlaceholderError(m,", 'R-C13-once'),
+    # --- R-C13-eqhash / truncation / R-C13-reserved / process dependent values
+    _m('struct-hash-on-python-class', RDTYPE, "    return hash((type(s), s.get_full_name()))", "    return hash((type(s), s.cls))",
+       'R-C13-eqhash'),
+    _m('vector-hash-includes-explicit-flag', RDTYPE, "    return hash((type(s), s.nbits))",
+       "    return hash((type(s), s.nbits, s._is_explicit))", 'R-C13-eqhash'),
+    _m('packed-array-hash-on-list-identity', RDTYPE, "    return hash((type(s), tuple(s.dim_sizes), s.sub_dtype))",
+       "    return hash((type(s), tuple(s.dim_sizes), s.sub_dtype, s._cache_key))", 'R-C13-eqhash'),
+    _m('unique-name-class-name-truncated', VUTIL, '  return comp_name + "__" + param_name',
+       '  max_name_len = 64 - len( param_name ) - len( "__" )\n  return comp_name[:max_name_len] + "__" + param_name',
+       'R-C13-name'),
+    _m('yosys-vector-wire-not-checked', YTRANS + 'structural/YosysStructuralTranslatorL1.py',
+       '    assert isinstance( dtype, rdt.Vector )\n    s.check_decl( id_, "" )\n    return s.wire_vector_gen( id_, dtype, n_dim )',
+       '    assert isinstance( dtype, rdt.Vector )\n    return s.wire_vector_gen( id_, dtype, n_dim )', 'R-C13-reserved'),
+    _m('verilog-wire-check-only-for-arrays', VSL1,
+       "      template = \"Note: {n_dim} array of wires {id_} has data type {_dtype}\"\n    s.check_decl( id_, template.format( **locals() ) )",
+       "      template = \"Note: {n_dim} array of wires {id_} has data type {_dtype}\"\n      s.check_decl( id_, template.format( **locals() ) )",
+       'R-C13-reserved'),
+    _m('placeholder-guard-from-builtin-hash', VPLACEHOLDER,
+       '        f"`ifndef {cfg.dependency_guard_symbol}\\n"',
+       '        f"`ifndef {cfg.dependency_guard_symbol}_{hash(cfg.pickled_orig_file) & 0xffffffff:08X}\\n"', 'R-C13-unordered'),
+    _m('placeholder-guard-from-pid', VPLACEHOLDER,
+       '        f"`ifndef {cfg.dependency_guard_symbol}\\n"',
+       '        f"`ifndef {cfg.dependency_guard_symbol}_{os.getpid()}\\n"', 'R-C13-unordered'),
     # --- R-C13-state
     _m('translator-state-initialised-once', VTRANSLATOR,
        "      s._mangled_placeholder_top_module_name = ''\n      s._included_pickled_files = set()\n",
@@ -1981,6 +2296,21 @@ EQUIV = [
        "        s._dsl.kwargs = kwargs\n", None),
     _m('wrapper-name-guard-reversed-operands', VSL1, "        if module_name == ph_cfg.top_module:\n          raise VerilogPlaceholderError(m,",
        "        if not ( ph_cfg.top_module != module_name ):\n          raise VerilogPlaceholderError(m,", None),
+    _m('struct-hash-on-name-parts', RDTYPE, "    return hash((type(s), s.get_full_name()))",
+       "    return hash((type(s), s.cls.__name__, s.get_field_str()))", None),
+    _m('unique-name-truncated-but-fully-hashed', VUTIL,
+       "  param_hash.update(full_name[len(comp_name):].encode('ascii'))\n  param_name = param_hash.hexdigest()\n"
+       '  return comp_name + "__" + param_name',
+       "  param_hash.update(full_name.encode('ascii'))\n  param_name = param_hash.hexdigest()\n"
+       '  return comp_name[:40] + "__" + param_name', None),
+    _m('yosys-wire-check-after-assert-reordered', YTRANS + 'structural/YosysStructuralTranslatorL1.py',
+       '    assert isinstance( dtype, rdt.Vector )\n    s.check_decl( id_, "" )\n    return s.wire_vector_gen( id_, dtype, n_dim )',
+       '    s.check_decl( id_, "" )\n    assert isinstance( dtype, rdt.Vector )\n    wires = s.wire_vector_gen( id_, dtype, n_dim )\n    return wires',
+       None),
+    _m('placeholder-guard-from-crc32', VPLACEHOLDER,
+       '        f"`ifndef {cfg.dependency_guard_symbol}\\n"',
+       '        f"`ifndef {cfg.dependency_guard_symbol}_{__import__(\'zlib\').crc32(cfg.pickled_orig_file.encode()) & 0xffffffff:08X}\\n"',
+       None),
     _m('local-renamed-in-unique-name', VUTIL, "  param_name = param_hash.hexdigest()\n  return comp_name + \"__\" + param_name",
        "  digest = param_hash.hexdigest()\n  return comp_name + \"__\" + digest", None),
 ]
